@@ -29,6 +29,7 @@ class Part:
     name: str
     element: str | None = None  # name of a global element of the types schema
     type: str | None = None  # xs builtin local name
+    ctype: str | None = None  # name of a named complex type of the types schema
 
 
 @dataclass
@@ -56,6 +57,13 @@ class Wsdl:
     imported_schema: bool = False
     style_on_binding: bool = True
     features: set = field(default_factory=set)
+    ctypes: list = field(default_factory=list)  # named complex types (El: name + fields) used by parts given by type
+
+    def ct(self, name):
+        for e in self.ctypes:
+            if e.name == name:
+                return e
+        raise KeyError(name)
 
     def el(self, name):
         for e in self.elements:
@@ -122,7 +130,13 @@ class WsdlGen:
             else:
                 op.body_ns = rng.choice([tns, f"urn:wsdlgen:{self.salt}:rpc"])
                 for j in range(rng.randrange(1, 3)):
-                    if rng.random() < 0.6:
+                    r = rng.random()
+                    if r < 0.2:
+                        ct = self.element("Pt")
+                        w.ctypes.append(ct)
+                        op.input.append(Part(f"arg{j}", ctype=ct.name))
+                        w.features.add("part-by-complex-type")
+                    elif r < 0.6:
                         op.input.append(Part(f"arg{j}", type=rng.choice(SIMPLE)))
                         w.features.add("part-by-type")
                     else:
@@ -154,6 +168,12 @@ def render(w: Wsdl) -> dict:
             occ = (f' minOccurs="{mn}"' if mn != 1 else "") + (f' maxOccurs="{mx}"' if mx != 1 else "")
             schema_body.append(f'            <xsd:element name="{fn}" type="xsd:{t}"{occ}/>')
         schema_body.append("          </xsd:sequence>\n        </xsd:complexType>\n      </xsd:element>")
+    for e in w.ctypes:
+        schema_body.append(f'      <xsd:complexType name="{e.name}">\n        <xsd:sequence>')
+        for fn, t, mn, mx in e.fields:
+            occ = (f' minOccurs="{mn}"' if mn != 1 else "") + (f' maxOccurs="{mx}"' if mx != 1 else "")
+            schema_body.append(f'          <xsd:element name="{fn}" type="xsd:{t}"{occ}/>')
+        schema_body.append("        </xsd:sequence>\n      </xsd:complexType>")
     schema = (f'<xsd:schema xmlns:xsd="{XS}" targetNamespace="{w.types_ns}" elementFormDefault="qualified">\n' + "\n".join(schema_body) + "\n    </xsd:schema>")
     files = {}
     if w.imported_schema:
@@ -169,6 +189,8 @@ def render(w: Wsdl) -> dict:
         for p in parts:
             if p.element:
                 ps.append(f'    <part name="{p.name}" element="ty:{p.element}"/>')
+            elif p.ctype:
+                ps.append(f'    <part name="{p.name}" type="ty:{p.ctype}"/>')
             else:
                 ps.append(f'    <part name="{p.name}" type="xsd:{p.type}"/>')
         return f'  <message name="{name}">\n' + "\n".join(ps) + "\n  </message>"
